@@ -789,6 +789,10 @@ class CExec:
             return self.stmt(body, None)
         parts = [x for x in (cond, inc, body) if x]
         vars_, fields, calls = self.assigned_in(parts)
+        if not getattr(self, "_trial", False) and vars_:
+            vars_ = self.refine_havoc(n, st, init, cond, inc, body, test_first, vars_)
+        elif getattr(self, "_trial", False) and getattr(self, "_keep", None) is not None:
+            vars_ = set(vars_) - self._keep
         entry = st.clone()
         self.check_invariant(n, "init", entry, st)
         head = st.clone()
@@ -828,9 +832,68 @@ class CExec:
                 ex.guard = z3.simplify(z3.And(out.guard, z3.Not(c)))
                 exit_states.append(ex)
                 out.guard = z3.simplify(z3.And(out.guard, c))
+            if getattr(self, "_trial", False) and getattr(self, "_probe", None) and self._probe[0] == id(n):
+                self._backedge = out
             self.check_invariant(n, "preserve", entry, out)
         exit_states.extend(self.brk.pop())
         return merge_all([x for x in exit_states if x is not None and not is_false(x.guard)])
+
+    def refine_havoc(self, n, st, init, cond, inc, body, test_first, vars_):
+        """Which of the variables assigned in the loop really differ at the
+        back edge?  A variable that is only assigned on paths leaving the loop
+        (result = f(..); break;) keeps its entry value at every loop head.
+        Greatest fixpoint: assume a set is preserved, execute the body once
+        from the cut state, drop the variables whose back-edge value is not
+        provably the head value (dropping is always sound)."""
+        plain = {v for v in vars_ if not isinstance(v, tuple) and v in st.vars}
+        keep = set(plain)
+        saved = (list(self.obls), list(self.returns), {k: list(v) for k, v in self.pending.items()},
+                 [list(b) for b in self.brk], [list(c) for c in self.cont], list(self.assumptions),
+                 list(self.decisions), list(self.havocs), dict(self.lvrefs))
+        self._trial = True
+        try:
+            for _ in range(4):
+                if not keep:
+                    break
+                self._keep = keep
+                self._backedge = None
+                trial = st.clone()
+                self._probe = (id(n), {v: trial.vars[v] for v in keep})
+                self.loop(n, trial, init, cond, inc, body, test_first)
+                back = self._backedge
+                bad = set()
+                if back is not None:
+                    for v in keep:
+                        if v not in back.vars:
+                            bad.add(v)
+                            continue
+                        if back.vars[v] is self._probe[1][v] or back.vars[v].eq(self._probe[1][v]):
+                            continue
+                        sol = z3.Solver()
+                        sol.set("timeout", 1000)
+                        sol.add(back.guard, *self.assumptions)
+                        sol.add(back.vars[v] != self._probe[1][v])
+                        if sol.check() != z3.unsat:
+                            bad.add(v)
+                (self.obls, self.returns, self.pending, self.brk, self.cont, self.assumptions,
+                 self.decisions, self.havocs, self.lvrefs) = (
+                    list(saved[0]), list(saved[1]), {k: list(v) for k, v in saved[2].items()},
+                    [list(b) for b in saved[3]], [list(c) for c in saved[4]], list(saved[5]),
+                    list(saved[6]), list(saved[7]), dict(saved[8]))
+                if not bad:
+                    break
+                keep -= bad
+        except Unsupported:
+            keep = set()
+        finally:
+            self._trial = False
+            self._keep = None
+            (self.obls, self.returns, self.pending, self.brk, self.cont, self.assumptions,
+             self.decisions, self.havocs, self.lvrefs) = (
+                list(saved[0]), list(saved[1]), {k: list(v) for k, v in saved[2].items()},
+                [list(b) for b in saved[3]], [list(c) for c in saved[4]], list(saved[5]),
+                list(saved[6]), list(saved[7]), dict(saved[8]))
+        return set(vars_) - keep
 
     def check_invariant(self, n, phase, entry, st):
         pass
